@@ -146,19 +146,35 @@ func runC10(ctx *h.Ctx) int {
 	prof := profC01()
 	prof.RichArgs, prof.PTextArg, prof.PMovesArg, prof.PTyped = true, 0.15, 0.08, 0.2
 	ctx.RunCases("in-control-flow", ctx.N(2500, 100000), func(k *h.Case) {
-		g, prog := genScripts(k, prof, 1+k.R.IntN(2))
-		pr := layoutOf(k, prog, 0.2)
+		p := prof
+		if k.Index%2 == 1 {
+			// commands inside poryswitch cases (incl. the '_' fallback) and AutoVar commands inside
+			// compound / parenthesised conditions
+			p.WPory, p.PoryKeys, p.PFallback = 6, []string{"GAME"}, 0.9
+			p.PAuto, p.MaxLeaves, p.NoRedundantPar, p.RichArgs = 0.35, 3, false, false
+			p.PTextArg, p.PMovesArg = 0.3, 0.12
+		}
+		g, prog0 := genScripts(k, p, 1+k.R.IntN(2))
+		if len(p.PoryKeys) > 0 {
+			prog0.Switches["GAME"] = []string{"RUBY", "SAPPHIRE", "OTHER", "1"}[k.R.IntN(4)]
+		}
+		prog, rerr := spec.Resolve(prog0, prog0.Switches)
+		pr := layoutOf(k, prog0, 0.2)
 		k.SetSource(pr.Src)
+		if rerr != nil {
+			k.Count("rejected", 1)
+			return
+		}
 		lm := buildLabelModel(prog)
 		for _, opt := range []bool{true, false} {
-			res := h.Compile(pr.Src, optsOf(prog, opt))
+			res := h.Compile(pr.Src, optsOf(prog0, opt))
 			k.Count("evaluations", 1)
 			if !res.OK() {
 				k.Count("rejected", 1)
 				return
 			}
 			k.Count("accepted", 1)
-			if !vmCheck(k, prog, res.Out, vmCheckOpts{NStates: ctx.N(6, 16), Full: true, Render: lm.renderCmd, Cands: g.Cands(), Orig: prog, Optimize: opt}, fmt.Sprintf("optimize=%v", opt)) {
+			if !vmCheck(k, prog, res.Out, vmCheckOpts{NStates: ctx.N(6, 16), Full: true, Render: lm.renderCmd, Cands: g.Cands(), Orig: prog0, Optimize: opt}, fmt.Sprintf("optimize=%v", opt)) {
 				return
 			}
 		}
@@ -168,7 +184,7 @@ func runC10(ctx *h.Ctx) int {
 			}
 		}
 	})
-	rejectGuard(ctx, 0.05)
+	rejectGuard(ctx, 0.1)
 	return ctx.Finish(
 		"straight-line scripts (commands with 0..3 arguments made of identifiers incl. multi-byte, decimal/hex/negative numbers, operator characters, keywords, nested parentheses with commas, inline text and moves(); labels with and without scope; commands whose argument is global/local): the script's emitted lines must equal, in order, one line per statement = name + arguments (token sequence compared, spacing ignored, inline text/moves replaced by the hoisting model's label) followed by the terminator. Second workload: the same argument shapes inside structured control flow, checked on every executed path by VM-vs-reference trace equality with full command texts. distinct = distinct argument-shape signature",
 		ctx.N(1000, 10000),
